@@ -855,6 +855,36 @@ pub fn worker_main() -> i32
     stats.want_digests = std::env::var("VERIF_DIGEST").is_ok();
     let mut sigs_seen : BTreeSet<String> = BTreeSet::new();
 
+    if cfg.prop == "H3"
+    {
+        let cp = |t : &str, s : &str| SRule{ targets : vec![t.to_string()], sources : vec![s.to_string()], lines : vec![Line::Emit{ target : t.to_string(), salt : "".to_string(), inputs : vec![s.to_string()], exec : false }] };
+        let w = |p : &str, c : &str| Op::Write{ path : p.to_string(), content : c.as_bytes().to_vec() };
+        let b = || Op::Build{ goal : None, sched : SchedSpec::serial() };
+        let mut knobs = Knobs::default();
+        knobs.clock = ClockMode::Tick;
+        let case = Case
+        {
+            rules : vec![cp("x", "s1"), cp("y", "s2"), cp("z", "x")],
+            files : vec![("s1".to_string(), b"B".to_vec()), ("s2".to_string(), b"A".to_vec())],
+            dirs : vec![], rule_files : 1,
+            ops : vec![b(), w("s1", "A"), w("s2", "B"), b(), w("s2", "C"), b(), w("s1", "B"), b()],
+            knobs : knobs,
+        };
+        for v in pair_engine::run_pair(&case, None) { println!("{} | {}", v.sig, v.detail); }
+        let mut runner = Runner::new(&case);
+        while !runner.done()
+        {
+            if let Some(inv) = runner.step()
+            {
+                println!("op {} {}", inv.op_index, inv.res.verdict.short());
+                for p in inv.res.printed.iter() { println!("    {:?}", p); }
+                for f in ["x", "y", "z"] { println!("    {} = {:?} mtime {:?}", f, inv.after.read(f).map(|c| String::from_utf8_lossy(&c).to_string()), inv.after.meta(f)); }
+                runner.absorb(&inv);
+            }
+        }
+        return 0;
+    }
+
     if cfg.prop == "SORTCHK"
     {
         let (n, bad) = sort_crosscheck(env_u64("VERIF_SORT_N", 3) as usize);
